@@ -219,6 +219,12 @@ def harvest():
         slot["seeds"] = list(dict.fromkeys(slot["seeds"]))
         slot["expected"] = list(dict.fromkeys(slot["expected"]))
         slot["unchanged"] = list(dict.fromkeys(slot.get("unchanged", [])))
+        # a fixture the repository's own test expects to stay as it is (a declined shape) is not a site to replicate
+        neg = set(slot["unchanged"])
+        declined = [x for x in slot.get("sast", []) if x["code"] in neg]
+        if declined:
+            slot["sast"] = [x for x in slot["sast"] if x["code"] not in neg]
+            slot["sast_declined"] = declined
         seen = set()
         uniq = []
         for s in slot["sast"]:
@@ -291,7 +297,8 @@ def _harvest_function(fnode, slot, bindings=(), helper_docs=None, tree=None):
                         inputs.extend(exp)
                     continue
             if s is not None:
-                env[name] = s
+                for n_ in names:  # a chained assignment binds every target
+                    env[n_] = s
                 if INPUT_NAME.search(name) and not OUTPUT_NAME.search(name):
                     inputs.append(s)
                 elif OUTPUT_NAME.search(name):
